@@ -857,6 +857,7 @@ def extract(build, ir_text=None):
     for pf in M.param_modes:
         if pf not in fdefs:
             raise ExtractError("Cap.paramModes: function %s does not exist" % pf)
+    M.mode_functions_names = set(re.findall(r'\("(\w+)",\s*"[\w-]+"\)', re.search(r'def modeFunctions[^\n]*', open(CAP_LEAN).read()).group(0)))
     M.param_all = dict(M.param_modes)
     M.param_auto = {}
     for n in base_slice:
@@ -876,15 +877,27 @@ def extract(build, ir_text=None):
                         raise ExtractError("%s: argument %d of %s (parameter-keyed function%s) is not a non-negative integer constant" % (
                             n, ai, i.callee, " of Cap.paramModes" if i.callee in M.param_modes else ": it forwards the parameter to janet_sandbox_assert"))
                     consts[i.callee].add(i.const_args[ai])
-    M.slice, M.slice_m0, M.clone_id = [], [], {}
+    # out-parameter functions: `*p = constant` through one i32* parameter, at most one value per activation (see _out_param);
+    # one graph function per value the activation stores (OUT_NONE = it stores nothing)
+    M.out_param = {}
+    for n in base_slice:
+        if n in M.escaping or n in M.mode_functions_names or n in M.param_auto:
+            continue
+        op_ = _out_param(fdefs[n])
+        if op_ is not None:
+            M.out_param[n] = op_
+    M.slice, M.slice_m0, M.slice_ov, M.clone_id = [], [], [], {}
     for n in base_slice:
         cs = sorted(consts.get(n, ())) if n in M.param_all else [None]
         if len(cs) > 24:
             raise ExtractError("%s: parameter-keyed function called with %d different constants" % (n, len(cs)))
+        ovs = (M.out_param[n]["vals"] + [OUT_NONE]) if n in M.out_param else [None]
         for c in (cs or [0]):
-            M.clone_id[(n, c)] = len(M.slice)
-            M.slice.append(n)
-            M.slice_m0.append(c)
+            for ov in ovs:
+                M.clone_id[(n, c, ov)] = len(M.slice)
+                M.slice.append(n)
+                M.slice_m0.append(c)
+                M.slice_ov.append(ov)
     M.param_consts = {k: sorted(v) for k, v in consts.items()}
     # ---- nodes
     fn_ids = {}
@@ -901,6 +914,8 @@ def extract(build, ir_text=None):
             raise ExtractError("Cap.modeFunctions: function %s is not in the slice" % mf)
     M.mode_tracked, M.mode_untracked, M.mask_tracked, M.assert_choices = [], [], [], []
     M.guard_tracked = []
+    M.stop_nodes = []
+    M.out_sites = []
     M.setjmp_fns = set()
     M.param_slot = {}
     nodes = []            # (fn id, op tuple, succ node ids)   op: ('nop',) ('assert',m) ('libc',fn,name) ('call',g) ('havoc',why) ('ret',)
@@ -912,6 +927,8 @@ def extract(build, ir_text=None):
         again = name in seen_names          # a further clone of a parameter-keyed function: same events, own nodes
         seen_names.add(name)
         marks = (len(M.mode_tracked), len(M.mode_untracked), len(M.mask_tracked), len(M.assert_choices))
+        M.cur_ov = M.slice_ov[fidx]
+        M.out_upd = {}
         first = {}
         chains = []
         mode_ev = _mode_track(M, f)
@@ -919,7 +936,7 @@ def extract(build, ir_text=None):
         guard_ev, guard_br = {}, {}
         if name not in M.mode_functions and name not in M.param_all:
             excl = set(v for n_, v in M.mode_tracked + M.mask_tracked if n_ == name)
-            guard_ev, guard_br, ginfo = _guard_track(M, f, excl)
+            guard_ev, guard_br, ginfo, M.out_upd = _guard_track(M, f, excl)
             if ginfo:
                 M.guard_tracked.append((name, ginfo))
         if (mask_ev or var_asserts) and (name in M.mode_functions or name in M.param_all):
@@ -968,6 +985,11 @@ def extract(build, ir_text=None):
                             prev = cur_
                         new_exits.append(prev)
                     nodes[ent][2] = heads
+                elif op[0] == "stop":      # this clone's activation never executes the instruction: a node without successors
+                    nodes.append([fidx, ("nop",), []])
+                    M.node_src.append((name, b.label, txt))
+                    M.stop_nodes.append(ent)
+                    new_exits = []
                 else:
                     nodes.append([fidx, op, []])
                     M.node_src.append((name, b.label, txt))
@@ -1163,13 +1185,92 @@ def _keep(field):
     return ALLW & ~field
 
 
+OUT_NONE = -1                          # clone of an out-parameter function for the activations that store nothing
+
+
+def _out_param(f):
+    """`f` has exactly one `i32*` parameter p that is spilled once, never assigned, and whose every use is
+    `*p = constant (0..255)`; and no store through p can be followed, in the CFG, by a store of a DIFFERENT constant through p.
+    Then an activation of f stores at most one value through p, and the set of activations is the union over v of "stores
+    only v" plus "stores nothing": the graph gets one clone of f per case, in which the other stores are nodes without
+    successors (such an activation never executes them).
+    -> dict(idx, slot, stores={id(inst): constant}, vals=[..]) or None (not recognised = not summarised)."""
+    found = []
+    for x in f.blocks[0].insts:
+        m = re.match(r'store i32\* %(\d+), i32\*\* (%[\w.]+),', x.text)
+        if m and int(m.group(1)) < f.params:
+            found.append((int(m.group(1)), m.group(2)))
+    res = []
+    for idx, slot in found:
+        pat = re.compile(r'(?<![\w.])' + re.escape(slot) + r'(?![\w.])')
+        ppat = re.compile(r'(?<![\w.])%' + str(idx) + r'(?![\w.])')
+        ptrs, ok, nspill = set(), True, 0
+        for b in f.blocks:
+            for i in b.insts:
+                t = i.text
+                if ppat.search(t):
+                    if re.match(r'store i32\* %' + str(idx) + r', i32\*\* ' + re.escape(slot) + r',', t):
+                        nspill += 1
+                    else:
+                        ok = False
+                    continue
+                if not pat.search(t):
+                    continue
+                if re.match(re.escape(slot) + r' = alloca i32\*', t):
+                    continue
+                ml = re.match(r'(%[\w.]+) = load i32\*, i32\*\* ' + re.escape(slot) + r',', t)
+                if ml:
+                    ptrs.add(ml.group(1))
+                    continue
+                ok = False
+            if b.term_text and (pat.search(b.term_text) or ppat.search(b.term_text)):
+                ok = False
+        if not ok or nspill != 1 or not ptrs:
+            continue
+        stores, where = {}, []
+        anyp = re.compile(r'(?<![\w.])(' + "|".join(re.escape(p_) for p_ in sorted(ptrs)) + r')(?![\w.])')
+        for b in f.blocks:
+            for k, i in enumerate(b.insts):
+                t = i.text
+                if not anyp.search(t):
+                    continue
+                if re.match(r'%[\w.]+ = load i32\*, i32\*\* ', t) and t.split(" = ")[0] in ptrs:
+                    continue
+                ms = re.match(r'store i32 (-?\d+), i32\* (%[\w.]+),', t)
+                if ms and ms.group(2) in ptrs and 0 <= int(ms.group(1)) < (1 << GUARD_BITS) and len(anyp.findall(t)) == 1:
+                    stores[id(i)] = int(ms.group(1))
+                    where.append((b, k, int(ms.group(1))))
+                    continue
+                ok = False
+            if b.term_text and anyp.search(b.term_text):
+                ok = False
+        if not ok or not stores:
+            continue
+        # no store of another constant after a store (CFG reachability)
+        for b, k, c in where:
+            seen, todo = set(), list(b.succs)
+            while todo:
+                l_ = todo.pop()
+                if l_ not in seen:
+                    seen.add(l_)
+                    todo += f.bmap[l_].succs
+            for b2, k2, c2 in where:
+                if c2 != c and (b2.label in seen or (b2 is b and k2 > k)):
+                    ok = False
+        if ok:
+            res.append(dict(idx=idx, slot=slot, stores=stores, vals=sorted(set(stores.values()))))
+    return res[0] if len(res) == 1 and len(found) == 1 else None
+
+
 def _guard_track(M, f, exclude):
-    """Guard variables of one function: i32 locals that are only ever assigned integer constants 0..255 (address never
-    used for anything but load/store) and that decide at least one conditional branch `br (icmp eq|ne (load x), K)`.
-    Each gets an 8-bit field of the activation's word.
+    """Guard variables of one function: i32 locals that are only ever assigned integer constants 0..255 and that decide at
+    least one conditional branch `br (icmp eq|ne (load x), K)`.  The address is used for nothing but load / store - or as the
+    argument of ONE out-parameter function (M.out_param: the callee's only stores through it are constants, summarised per
+    clone of the callee).  Each gets an 8-bit field of the activation's word.
     -> ({id(store inst): ('modeUpd', keep, value << off)},
         {block label: (field mask, [(value << off, eq) for the true edge, (.., not eq) for the false edge])},
-        [(alloca, offset, values, branch blocks)])
+        [(alloca, offset, values, branch blocks)],
+        {id(call inst): (keep, offset, alloca)} for the calls that get the address of a guard variable)
     Anything not recognised is simply not tracked (no guard = every path possible = over-approximation)."""
     allocas = []
     for b in f.blocks:
@@ -1182,7 +1283,7 @@ def _guard_track(M, f, exclude):
         pat = re.compile(r'(?<![\w.])' + re.escape(v) + r'(?![\w.])')
         ld = re.compile(r'%[\w.]+ = load i32, i32\* ' + re.escape(v) + r',')
         st = re.compile(r'store i32 (-?\d+), i32\* ' + re.escape(v) + r',')
-        ok, stores, vals = True, [], set()
+        ok, stores, vals, outs, callee = True, [], set(), [], None
         for b in f.blocks:
             for i in b.insts:
                 t = i.text
@@ -1195,6 +1296,13 @@ def _guard_track(M, f, exclude):
                     stores.append((i, int(ms.group(1))))
                     vals.add(int(ms.group(1)))
                     continue
+                if i.kind == "call" and i.callee in M.out_param and callee in (None, i.callee) and len(pat.findall(t)) == 1:
+                    op_ = M.out_param[i.callee]
+                    if op_["idx"] < len(i.args) and i.args[op_["idx"]][1] == v and i.args[op_["idx"]][0].startswith("i32*"):
+                        callee = i.callee
+                        outs.append(i)
+                        vals.update(op_["vals"])
+                        continue
                 ok = False
                 break
             if not ok:
@@ -1203,7 +1311,7 @@ def _guard_track(M, f, exclude):
                 ok = False
                 break
         if ok and stores:
-            cands[v] = (stores, vals)
+            cands[v] = (stores, vals, outs)
     # conditional branches decided by a candidate
     branches = {}
     for b in f.blocks:
@@ -1233,18 +1341,20 @@ def _guard_track(M, f, exclude):
             continue
         branches.setdefault(v, []).append((b.label, mc.group(1) == "eq", kc))
     chosen = [v for v in allocas if v in branches][:MAX_GUARDS]
-    evs, brs, info = {}, {}, []
+    evs, brs, info, out_upd = {}, {}, [], {}
     for k, v in enumerate(chosen):
         off = GUARD_SHIFT + GUARD_BITS * k
         field = ((1 << GUARD_BITS) - 1) << off
         for i, c in cands[v][0]:
             evs[id(i)] = ("modeUpd", _keep(field), c << off)
+        for i in cands[v][2]:
+            out_upd[id(i)] = (_keep(field), off, v)
         for lab, is_eq, kc in branches[v]:
             if lab in brs:
                 continue
             brs[lab] = (field, [(kc << off, is_eq), (kc << off, not is_eq)])
         info.append((v, off, sorted(cands[v][1]), [b_[0] for b_ in branches[v]]))
-    return evs, brs, info
+    return evs, brs, info, out_upd
 
 
 def _param_fixed(f, idx):
@@ -1397,6 +1507,9 @@ def _events(M, fname, i, fn_ids, fdefs, blk=None, var_asserts=()):
     sens = M.sens
     if i.kind == "store" and M.flag_gep in i.text:
         return [(("havoc", "flag store"), i.text)]
+    if fname in M.out_param and id(i) in M.out_param[fname]["stores"]:
+        # `*p = c` in the clone for the activations that store `ov` (and nothing else) through p
+        return [] if M.out_param[fname]["stores"][id(i)] == M.cur_ov else [(("stop",), i.text)]
     # references to sensitive externals (address taken, or a variable such as environ read/written)
     for r in i.refs:
         if r in sens and not (i.kind == "call" and i.callee == r):
@@ -1434,15 +1547,27 @@ def _events(M, fname, i, fn_ids, fdefs, blk=None, var_asserts=()):
         elif c in M.spawners:
             for r in i.refs:
                 if r in fn_ids:
-                    if r in M.param_all:
+                    if r in M.param_all or r in M.out_param:
                         raise ExtractError("parameter-keyed function %s is handed to a spawner" % r)
                     evs.append((("call", fn_ids[r], 0), i.text))
         elif c in fn_ids:
-            m0, target = 0, fn_ids[c]
+            m0, key = 0, None
             if c in M.param_all:
-                m0 = i.const_args[M.param_all[c]]             # (checked to be a constant when the clones were made)
-                target = M.clone_id[(c, m0)]
-            evs.append((("call", target, m0), i.text))
+                m0 = key = i.const_args[M.param_all[c]]       # (checked to be a constant when the clones were made)
+            if c in M.out_param:
+                # the activation stores one of `vals` through its pointer parameter, or nothing: one alternative per case; when
+                # the argument is the address of a guard variable of this function, the alternative for v ends with `x := v`
+                upd = M.out_upd.get(id(i))
+                alts = []
+                for ov in M.out_param[c]["vals"] + [OUT_NONE]:
+                    alt = [("call", M.clone_id[(c, key, ov)], m0)]
+                    if upd is not None and ov != OUT_NONE:
+                        alt.append(("modeUpd", upd[0], ov << upd[1]))
+                    alts.append(alt)
+                M.out_sites.append((fname, c, upd[2] if upd else None))
+                evs.append((("choice", alts), i.text))
+            else:
+                evs.append((("call", M.clone_id[(c, key, None)], m0), i.text))
         elif c in fdefs:
             if c in M.may_grow:
                 evs.append((("havoc", "call " + c), i.text))
@@ -1799,6 +1924,9 @@ def render(M, C, origin="current tree"):
     o.append("-- slice functions that call setjmp (the call is a havoc node): %s" % sorted(M.setjmp_fns))
     o.append("-- assert-mask variables tracked (bits %d.. of the word): %s; asserts on a select/phi of constants: %s" % (SHIFT, M.mask_tracked, M.assert_choices))
     o.append("-- guard variables (int locals assigned only constants, deciding a conditional branch; 8-bit fields from bit %d): %s" % (GUARD_SHIFT, M.guard_tracked))
+    o.append("-- out-parameter functions (`*p = constant` only, at most one value per activation; one clone per value, %d = none): %s; "
+             "call sites (caller, callee, guard variable that receives the value): %s; nodes without successors (a store of another value): %s" % (
+                 OUT_NONE, {k: (v["idx"], v["vals"]) for k, v in M.out_param.items()}, sorted(set(M.out_sites), key=str), M.stop_nodes))
     table("certK", "List Case", ["[" + ", ".join("(%d, %s)" % (m, _lnat_list(k)) for m, k in cs) + "]" for cs in C.K], "[]",
           "UNTRUSTED certificate (checked by `certOK`): cases known on entry to node n")
     table("certPost", "List Nat", [_lnat_list(k) for k in C.post], "[]", "untrusted: postcondition of function n")
